@@ -22,15 +22,18 @@ RULE = ("literals at day / hour / minute / second precision on ordinary days, mo
         "answers, and the `modified` column == strftime. Non-trivial = files exist within 1 s on both sides of each "
         "edge and the operator's answer is a proper non-empty subset; distinct by (tz, literal text, operator).")
 ASSUMPTIONS = [
-    "free-form English dates and literals whose local midnight does not exist are not generated",
+    "free-form English dates are not generated",
     "=== / !== are only asserted for second-precision literals (equal to a)",
     "Python zoneinfo (system tzdata) is the reference for local time; the clock shim only affects CLOCK_REALTIME of the child",
 ]
 
-TZS = ["UTC", "America/New_York", "Asia/Kolkata", "America/Havana"]   # Havana: the clock falls back from 01:00 to 00:00 (midnight occurs twice)
+# Havana: the clock falls back from 01:00 to 00:00 (midnight occurs twice); Santiago: it jumps from 00:00 to 01:00
+# (midnight does not occur at all on the first Sunday of September - the day exists all the same)
+TZS = ["UTC", "America/New_York", "Asia/Kolkata", "America/Havana", "America/Santiago"]
 DAYS = [(2020, 1, 15), (2020, 2, 29), (2021, 2, 28), (2020, 12, 31), (2021, 1, 1), (2020, 4, 30), (2020, 3, 8), (2020, 11, 1),
         (2019, 7, 4), (2024, 2, 29), (2023, 3, 12), (2023, 11, 5), (2022, 5, 31), (1999, 12, 31), (2030, 6, 9),
-        (2022, 11, 6), (2018, 11, 4), (2022, 3, 13)]   # Havana: ambiguous midnight twice, a spring-forward day
+        (2022, 11, 6), (2018, 11, 4), (2022, 3, 13),   # Havana: ambiguous midnight twice, a spring-forward day
+        (2038, 9, 5), (2040, 9, 2), (2024, 9, 8), (2038, 9, 4), (2038, 9, 6)]   # Santiago: days without a midnight, and their neighbours
 OPS = ["=", "!=", "<", "<=", ">", ">=", "===", "!=="]
 OP_SPELL = {"=": ["=", "==", "eq"], "!=": ["!=", "<>", "ne"], "<": ["<", "lt"], "<=": ["<=", "lte", "le"],
             ">": [">", "gt"], ">=": [">=", "gte", "ge"], "===": ["==="], "!==": ["!=="]}
